@@ -858,7 +858,15 @@ impl XmlAttributeValue {
                     Ok(Some(XmlAttributeValue::Char(char_ref)))
                 }
                 parser::Reference::Entity(v) => {
-                    let entity = context.entity(v)?;
+                    let entity = match context.entity(v) {
+                        Ok(entity) => entity,
+                        // A default value in an attribute-list declaration is built while its
+                        // DOCTYPE is under construction and not yet reachable from the document.
+                        // `parent_id` is that DOCTYPE then: look among the entities it has
+                        // declared so far (an entity must be declared before a default value
+                        // refers to it).
+                        Err(e) => context.declared_entity(v, parent_id).ok_or(e)?,
+                    };
                     let entity =
                         XmlUnexpandedEntityReference::node(entity, Some(parent_id), context);
                     Ok(Some(XmlAttributeValue::Entity(entity)))
@@ -4021,6 +4029,19 @@ impl Context {
             "quot" => Ok(node(XmlEntity::from(("quot", "\"", self)))),
             _ => Err(error::Error::NotFoundReference(name.to_string())),
         }
+    }
+
+    /// General entity `name` declared in the document type declaration `declaration_id`,
+    /// found through the id map, which also works while that declaration is being built.
+    fn declared_entity(&self, name: &str, declaration_id: usize) -> Option<XmlNode<XmlEntity>> {
+        self.id_map
+            .borrow()
+            .values()
+            .filter_map(|v| v.as_entity())
+            .filter(|v| {
+                v.borrow().parent_id() == Some(declaration_id) && v.borrow().name() == name
+            })
+            .min_by_key(|v| v.borrow().id())
     }
 
     /// Marks the document order as stale after a structural edit.
